@@ -86,6 +86,12 @@ theorem eSpec_colOf (f : EField) : eSpec.colOf f = f.col := rfl
 theorem eSpec_tyOf (f : EField) : eSpec.tyOf f = f.ty := rfl
 
 
+theorem alignedL_core {st : LStmts} (h : alignedL st = true) : alignedLcore st = true := by
+  simp only [alignedL, Bool.and_eq_true] at h; exact h.1
+
+theorem alignedL_ext {st : LStmts} (h : alignedL st = true) : alignedLext st = true := by
+  simp only [alignedL, Bool.and_eq_true] at h; exact h.2
+
 /-! ## playlist_entity_table -/
 
 theorem wt_i64 {v : FVal} (h : wtv .i64 v = true) : ∃ i, v = .int i := by
@@ -179,7 +185,8 @@ theorem entity_add_get {st : LStmts} (ha : alignedL st = true) {d d' : LDb}
     (hl : r .list_id = .int l) (ht : r .track_id = .int tr)
     (hnone : noEntry d.pe l tr) (h : eAddBack st d r dup = (d', .ok i)) :
     eGet st d' l tr = .ok (some (normRowE i r)) := by
-  simp only [alignedL, Bool.and_eq_true] at ha
+  replace ha := alignedL_core ha
+  simp only [alignedLcore, Bool.and_eq_true] at ha
   obtain ⟨⟨⟨⟨⟨⟨⟨⟨⟨_, _⟩, _⟩, _⟩, _⟩, _⟩, heins⟩, hesel⟩, _⟩, _⟩ := ha
   obtain ⟨u, hu⟩ := wt_str (hr .database_uuid)
   obtain ⟨ps, he, hi, hd'⟩ := eAddBack_inserted hl ht hu hnone h
@@ -237,12 +244,27 @@ theorem entity_add_get {st : LStmts} (ha : alignedL st = true) {d d' : LDb}
     (read_entity_inserted heins he hr (d.peSeq + 1))]
 
 
+/-- The aligned WHERE clause of `remove` selects by the PAIR (list, entity). -/
+theorem whereMatches_pair (l e : Int) (x : Raw ECol) :
+    whereMatches [(.listId, 0), (.id, 1)] [l, e] x = (x .listId == .int l && x .id == .int e) := by
+  simp [whereMatches]
+
 theorem entity_remove_missing {st : LStmts} (ha : alignedL st = true) {d : LDb} {l e : Int}
-    (h : d.pe.find? (fun x => x .listId == .int l && rowId .id x == e) = none) :
+    (h : ∀ x ∈ d.pe, ¬ (x .listId = .int l ∧ x .id = .int e)) :
     eRemove st d l e = (d, .throw .invalid_argument) := by
-  simp only [alignedL, Bool.and_eq_true] at ha
+  have hext := alignedL_ext ha
+  replace ha := alignedL_core ha
+  simp only [alignedLcore, Bool.and_eq_true] at ha
+  simp only [alignedLext, Bool.and_eq_true, decide_eq_true_eq] at hext
   unfold eRemove
-  rw [h, ha.2]
+  rw [hext.2]
+  have : d.pe.filter (whereMatches [(.listId, 0), (.id, 1)] [l, e]) = [] := by
+    rw [List.filter_eq_nil_iff]
+    intro x hx hc
+    rw [whereMatches_pair] at hc
+    simp only [Bool.and_eq_true, beq_iff_eq] at hc
+    exact h x hx hc
+  rw [this, ha.2]
   rfl
 
 /-! ## playlist_table -/
@@ -434,7 +456,8 @@ theorem playlist_add_get {st : LStmts} (ha : alignedL st = true) {d d' : LDb}
     (hwf : idsBelow .id d.pl d.plSeq) {r : Row PField} (hr : wtRowP r) {i : Int}
     (h : pAdd st d r = (d', .ok i)) :
     pGet st d' i = .ok (some (normRowP i r)) := by
-  simp only [alignedL, Bool.and_eq_true] at ha
+  replace ha := alignedL_core ha
+  simp only [alignedLcore, Bool.and_eq_true] at ha
   obtain ⟨⟨⟨⟨⟨⟨⟨⟨⟨_, _⟩, hpins⟩, _⟩, _⟩, hpsel⟩, _⟩, _⟩, _⟩, _⟩ := ha
   obtain ⟨ps, t, _, he, hi, hins, hd'⟩ := pAdd_ok h
   subst hi hd'
@@ -503,7 +526,8 @@ theorem playlist_update_get {st : LStmts} (ha : alignedL st = true) {d d' : LDb}
     {r : Row PField} (hr : wtRowP r) {i : Int} (hid : r .id = .int i)
     (h : pUpdate st d r = (d', .ok ())) :
     pGet st d' i = .ok (some (normRowP i r)) := by
-  simp only [alignedL, Bool.and_eq_true] at ha
+  replace ha := alignedL_core ha
+  simp only [alignedLcore, Bool.and_eq_true] at ha
   obtain ⟨⟨⟨⟨⟨⟨⟨⟨⟨_, _⟩, _⟩, hfull⟩, hsimple⟩, hpsel⟩, _⟩, _⟩, _⟩, _⟩ := ha
   obtain ⟨title, htitle⟩ := wt_str (hr .title)
   obtain ⟨parent, hparent⟩ := wt_i64 (hr .parent_list_id)
@@ -614,7 +638,8 @@ theorem playlist_update_get {st : LStmts} (ha : alignedL st = true) {d d' : LDb}
 
 theorem playlist_remove_missing {st : LStmts} (ha : alignedL st = true) {d : LDb} {i : Int}
     (h : findRow .id d.pl i = none) : pRemove st d i = (d, .throw .invalid_argument) := by
-  simp only [alignedL, Bool.and_eq_true] at ha
+  replace ha := alignedL_core ha
+  simp only [alignedLcore, Bool.and_eq_true] at ha
   unfold pRemove pExists
   rw [h, ha.1.2]
   rfl
